@@ -768,7 +768,10 @@ func (fr *Frame) evalCall(sc *Scope, x *ECall) Val {
 		if name == "forall" {
 			return scalar(boolT, forallRange(bv, lo, hi, body, pats))
 		}
-		return scalar(boolT, Exists([]Term{bv}, And(rng, body)))
+		_ = rng
+		// same index normal form as forall (absolute index into the array read first), so that the
+		// negated existential is a universal the solvers can instantiate by matching array reads
+		return scalar(boolT, Not(forallRange(bv, lo, hi, Not(body), pats)))
 	case "forallref":
 		// forallref(r, T, P): for every allocated non-nil reference r of pointer type *T
 		argn(3)
